@@ -179,7 +179,7 @@ theorem annStep_lookup_marker (R a : AList Str Str) (hk : ∀ k ∈ a.map (·.1)
     have hm : ('-' :: k) ∈ Result.annDel a := by
       unfold annLone at hx; exact (List.mem_filter.1 hx).1
     rw [Result.annDel_eq] at hm
-    have := (delKeys_unmarked _ hk _ hm).1
+    have := delKeys_unmarked _ hk _ hm
     cases this
   -- no set entry is a marker
   have hset : lastMatch (fun e : Str × Str => e.1 == '-' :: k) (Result.annSet a) = none := by
@@ -300,7 +300,7 @@ theorem annG_step (x : AList Str Str) (R a : NApi.Adjustment)
       simp only [Annotations.removes, Bool.and_eq_true, beq_iff_eq] at hr
       have := (keyOk_iff e.1).1 (hk e.1 (List.mem_map.2 ⟨e, he, rfl⟩))
       rw [hr.2, hm] at this
-      cases this.2
+      cases this
     simp [h1, h2]
   | false =>
     rw [annStep_lookup_unmarked _ _ k hm]
